@@ -35,7 +35,7 @@ SingleCases(cls) ==
 OutOf(cls, cfg) == [expect |-> Expect(cls, cfg), cfg |-> Pairs(cfg), defaults |-> DefaultsOf(cls, cfg)]
 
 (* ---------------------------------------------------------------------- mathx *)
-MathXClasses == IF Big THEN {"FormulaGrader", "MatrixGrader", "SumGrader", "IntegralGrader"} ELSE {"FormulaGrader", "SumGrader"}
+MathXClasses == IF Big THEN {"FormulaGrader", "MatrixGrader", "SumGrader", "IntegralGrader"} ELSE {"FormulaGrader"}
 A == "ABSENT"
 MathXDom == [variables |-> {A, "list_xy", "list_const", "list_ab"},
              numbered_vars |-> {A, "list_ab", "list_const"},
